@@ -524,7 +524,6 @@ func (cc *challengeConsume) dominatesIn(at ssa.Instruction) bool {
 	return ok
 }
 
-
 // derivesFromUserProfile: v is computed from the profile returned by LoadUserProfile(authUser).
 func derivesFromUserProfile(v ssa.Value, isAuthUser func(ssa.Value) bool, depth int) bool {
 	if depth > 14 || v == nil {
